@@ -63,7 +63,15 @@ def pat_src(p):
     if k == "end":
         return "end"
     if k == "concat":
-        return "(" + " ".join(pat_src(x) for x in p.parts) + ")"
+        out = []
+        for i, x in enumerate(p.parts):
+            nxt = p.parts[i + 1] if i + 1 < len(p.parts) else None
+            if x.kind == "lit" and x.form == "s" and nxt is not None and nxt.kind == "rx" and nxt.binary:
+                # `"ab" b/../` would lex as the binary string "ab"b: spell the literal in binary form instead
+                out.append(spell_binary(x.bs))
+            else:
+                out.append(pat_src(x))
+        return "(" + " ".join(out) + ")"
     if k == "ref":      # macro argument reference
         return p.name
     raise ValueError(k)
